@@ -10,6 +10,7 @@ import Driver.Snippet
 import Driver.ScalarRt
 import Driver.Calls
 import Driver.Locs
+import Driver.Anchors
 /-!
 `modeldrv`: one request per line on stdin (`<area> <op> <args…>`), one answer per line on stdout.
 -/
@@ -29,6 +30,7 @@ def dispatch (line : String) : String :=
   | "scalarrt" :: rest => ScalarRt.handle rest
   | "calls" :: rest => Calls.handle rest
   | "locs" :: rest => Locs.handle rest
+  | "anchors" :: rest => Anchors.handle rest
   | _ => "bad-op"
 
 partial def loop (h : IO.FS.Stream) (out : IO.FS.Stream) : IO Unit := do
